@@ -313,15 +313,15 @@ PROPS['C12'] = dict(
 _t11 = ['end', 'full', 'lower', 'upper', 'sparse']
 PROPS['C11'] = dict(
   explanation='Bounded symbolic execution of the real Ripser engine (gudhi/ripser.h: distance-matrix classes, the three simplex encodings incl. the 128-bit integer class, coboundary enumerators, apparent pairs, the hash-map based cohomology; clang IR of the headers in /repo): every dissimilarity is a finite-grid float (ties, no triangle inequality), threshold, dim_max, input form and encoding are forked by the solver, the modulus is concrete per unit; the streamed intervals (zero-length dropped) are compared as multisets per dimension with a dense signed Z_p reduction of the truncated Rips flag filtration computed in the harness.',
-  bounds=dict(quick='n=4: dissimilarities in {1,2} as symbolic grid floats (p=2), and in {0,1,2} (zero entries between distinct points, no triangle inequality) as concrete matrices enumerated by the solver (p=2 and 3); n=5 in {1,2} (p=2, enumerated); thresholds {0.5,1,2,inf}, dim_max 0..n-2, forms full/lower/upper/sparse, encodings auto/bitfield-64/bitfield-128/cns-128 combined by a covering design (every pair of factor levels); n=3 modulus 5, values {1,2,3}; unit bigindex: 5 active points with labels 1030+256i among 2055 sparse vertices, p=3, dim_max 2 (packed simplex indices exceed 32 bits and differ in their high bits)', thorough='full cross product at n=4 with values {1,2,3}; n=5 with {0,1,2} (p=3) and {1,2,3} (p=2); n=4 p=3 symbolic'),
+  bounds=dict(quick='all quick units run concrete matrices enumerated by the solver (the symbolic grid-float variants are in the thorough tier). n=4: dissimilarities in {1,2,3} (p=2), and in {0,1,2} (zero entries between distinct points, no triangle inequality) as concrete matrices enumerated by the solver (p=2 and 3); n=5 in {1,2} (p=2, enumerated); thresholds {0.5,1,2,inf}, dim_max 0..n-2, forms full/lower/upper/sparse, encodings auto/bitfield-64/bitfield-128/cns-128 combined by a covering design (every pair of factor levels); n=3 modulus 5, values {0,1,2,3}; unit bigindex: 5 active points with labels 1030+256i among 2055 sparse vertices, p=3, dim_max 2 (packed simplex indices exceed 32 bits and differ in their high bits)', thorough='full cross product at n=4 with values {1,2,3}; n=5 with {0,1,2} (p=3) and {1,2,3} (p=2); n=4 p=3 symbolic'),
   outside=['Euclidean point-cloud input (sqrt of symbolic coordinates)', 'more than 5 points', 'the SIMD path of boost::unordered_flat_map (compiled with -U__SSE2__)', 'moduli above 5'],
   budget=dict(quick=1200, thorough=3300),
-  units=[U('ripser_n4_p2', 'C11_ripser.cpp', ['VP_N=4', 'VP_P=2', 'VP_DMAX=2'], cflags=['-U__SSE2__'], weight=10, must_reach=_t11),
+  units=[U('ripser_n4_p2_enum', 'C11_ripser.cpp', ['VP_N=4', 'VP_P=2', 'VP_DMAX=3', 'VP_FORKD'], cflags=['-U__SSE2__'], weight=10, must_reach=_t11), U('ripser_n4_p2', 'C11_ripser.cpp', ['VP_N=4', 'VP_P=2', 'VP_DMAX=2'], cflags=['-U__SSE2__'], tiers=['thorough'], weight=20, must_reach=_t11),
          U('ripser_n4_p3_zero', 'C11_ripser.cpp', ['VP_N=4', 'VP_P=3', 'VP_DMAX=2', 'VP_DLO=0', 'VP_FORKD'], cflags=['-U__SSE2__'], weight=10, must_reach=_t11),
          U('ripser_n4_p2_zero', 'C11_ripser.cpp', ['VP_N=4', 'VP_P=2', 'VP_DMAX=2', 'VP_DLO=0', 'VP_FORKD'], cflags=['-U__SSE2__'], weight=10, must_reach=_t11),
          U('ripser_n5_p2_forked', 'C11_ripser.cpp', ['VP_N=5', 'VP_P=2', 'VP_DMAX=2', 'VP_FORKD'], cflags=['-U__SSE2__'], weight=14, must_reach=_t11),
          U('ripser_n5_p3_bigindex', 'C11_ripser.cpp', ['VP_N=5', 'VP_P=3', 'VP_DMAX=2', 'VP_PAD=1030', 'VP_PADGAP=256', 'VP_PADDIM=2', 'VP_FORKD'], cflags=['-U__SSE2__'], weight=20, must_reach=['end', 'sparse']),
-         U('ripser_n3_p5', 'C11_ripser.cpp', ['VP_N=3', 'VP_P=5', 'VP_DMAX=3'], cflags=['-U__SSE2__'], weight=5, must_reach=_t11),
+         U('ripser_n3_p5_enum', 'C11_ripser.cpp', ['VP_N=3', 'VP_P=5', 'VP_DMAX=3', 'VP_DLO=0', 'VP_FORKD'], cflags=['-U__SSE2__'], weight=5, must_reach=_t11), U('ripser_n3_p5', 'C11_ripser.cpp', ['VP_N=3', 'VP_P=5', 'VP_DMAX=3'], cflags=['-U__SSE2__'], tiers=['thorough'], weight=20, must_reach=_t11),
          U('ripser_n4_p3', 'C11_ripser.cpp', ['VP_N=4', 'VP_P=3', 'VP_DMAX=2'], cflags=['-U__SSE2__'], tiers=['thorough'], weight=20, must_reach=_t11),
          U('ripser_n4_p2_cross', 'C11_ripser.cpp', ['VP_N=4', 'VP_P=2', 'VP_DMAX=3', 'VP_CROSS', 'VP_FORKD'], cflags=['-U__SSE2__'], tiers=['thorough'], weight=60, must_reach=_t11),
          U('ripser_n5_p3_zero', 'C11_ripser.cpp', ['VP_N=5', 'VP_P=3', 'VP_DMAX=2', 'VP_DLO=0', 'VP_FORKD'], cflags=['-U__SSE2__'], tiers=['thorough'], weight=60, must_reach=_t11),
